@@ -31,7 +31,7 @@ REQUIRED_CLAUSES = ["a.fk_value", "b.eepos", "c.base", "d.joint_frames", "d.tool
 
 def plan(tier, seed):
     if tier == "quick":
-        return [{"n": 40, "timeout_s": 1800} for _ in range(16)]
+        return [{"n": 120, "timeout_s": 1800} for _ in range(16)]
     return [{"n": 2500, "timeout_s": 14400} for _ in range(16)]
 
 
@@ -254,7 +254,8 @@ def run_shard(spec, ctx):
         ctx.cls("arm:" + desc["kind"])
         ctx.cls("construct:" + construct + (":identity" if not np.any(np.asarray(base)) else ":moved_base"))
         ctx.case({"arm": desc.get("file", desc["kind"]), "S": gen.quant(desc.get("S", []), 1e-6)[:12], "base": gen.quant(base, 1e-6),
-                  "ops": [o["op"] + str(o.get("stationary", "")) + str(o.get("protect", "")) for o in ops]}, nontrivial(ops), sample_every=0)
+                  "ops": [o["op"] + str(o.get("stationary", "")) + str(o.get("protect", "")) for o in ops]}, nontrivial(ops), sample_every=0,
+                 sample={"arm": desc.get("file", desc["kind"]), "joints": model.n, "base": base, "construct": construct, "ops": ops[:4]})
         run_history(desc, base, ops, ctx, bm, construct)
         if ctx.out_of_time():
             break
